@@ -84,8 +84,10 @@ func genSchedCfg(g *sched.Rand, background bool) sched.Config {
 func genCrash(c *core.Ctx) (CrashCfg, CrashWL) {
 	g := c.Gen
 	cfg := CrashCfg{Index: model.GenIndexCfg(g), Sched: genSchedCfg(g, true), NDocs: 3 + g.Intn(3),
-		CrashEvery: 15 + g.Intn(40), HotEvery: 2 + g.Intn(3), MaxImages: 12, Mutilate: g.Intn(4) != 0, AnalysisQ: 1 + g.Intn(3)}
-	cfg.Index.Unsafe = g.Intn(3) == 0
+		CrashEvery: 40 + g.Intn(120), HotEvery: 1 + g.Intn(3), MaxImages: 18, Mutilate: g.Intn(4) != 0, AnalysisQ: 1 + g.Intn(3)}
+	// unsafe batches let a writer run ahead of the persister, which is what piles up unpersisted segments and lets
+	// batches land while an in-memory merge is running
+	cfg.Index.Unsafe = g.Intn(2) == 0
 	if g.Intn(10) < 3 {
 		cfg.IOErr = genIOErr(g)
 	}
@@ -117,7 +119,7 @@ func isHot(point string) bool {
 		}
 	}
 	// generated yields that follow an introduction being applied / a merge being handed over
-	return strings.HasPrefix(point, "post:introducer.go") || strings.HasPrefix(point, "post:persister.go") || strings.HasPrefix(point, "post:merge.go")
+	return strings.HasPrefix(point, "post:introducer.go") || strings.HasPrefix(point, "post:merge.go")
 }
 
 // writerTrack records invocation / acknowledgement steps of one writer's batches.
@@ -185,27 +187,26 @@ func crashScenario(c *core.Ctx) {
 	rc := &recoverer{c: c, cfg: cfg, prefixes: prefixes, tracks: tracks, store: store, path: path, iof: iof}
 
 	images := 0
-	hotNext := false
+	perLabel := map[string]int{}
 	s.OnStep(func(si *sched.StepInfo) {
-		hot := hotNext
-		hotNext = isHot(si.Point)
 		if images >= cfg.MaxImages {
 			return
 		}
-		take := false
-		if hot || hotNext {
-			take = c.Tape.Intn(cfg.HotEvery) == 0
-		} else {
-			take = c.Tape.Intn(cfg.CrashEvery) == 0
+		// the image budget of a run is spread over the kinds of step: at most two images per named durable-state
+		// step (so that every kind is reached in every run that gets there, late ones included) and a few at
+		// ordinary steps
+		label, every, limit := "other", cfg.CrashEvery, 4
+		if isHot(si.Point) {
+			label, every, limit = si.Point, cfg.HotEvery, 2
+			if strings.HasPrefix(label, "post:") {
+				label, limit = "after-handover", 3
+			}
 		}
-		if !take {
+		if perLabel[label] >= limit || c.Tape.Intn(every) != 0 {
 			return
 		}
+		perLabel[label]++
 		images++
-		label := si.Point
-		if !isHot(label) || strings.HasPrefix(label, "post:") {
-			label = "other"
-		}
 		c.Point("image@" + label)
 		c.Fault("crash_image")
 		rc.check(si.Step, fmt.Sprintf("crash at step %d before %s@%s", si.Step, si.Name, si.Point), false)
